@@ -138,3 +138,44 @@ Proof. reflexivity. Qed.
 Lemma clamp_out3_spec (f : Q -> Q -> Q -> Q) lo hi x y z :
   clamp_out3 Qltb lo hi f x y z = clampG Qltb (f x y z) lo hi.
 Proof. reflexivity. Qed.
+
+(* ---- the remaining constructor / range validation policies, characterised exactly ---------------------------- *)
+Lemma range_validate_spec len a b n :
+  range_validate len a b n = None <-> (len = 3%Z /\ a <= b /\ (1 <= n)%Z).
+Proof.
+  unfold range_validate.
+  destruct (Z.eqb_spec len 3); cbn [negb].
+  - destruct (Qltb b a) eqn:E; [apply Qltb_lt in E | apply Qltb_ge in E].
+    + split; [discriminate | intros (_ & H & _); lra].
+    + destruct (Z.ltb_spec n 1).
+      * split; [discriminate | intros (_ & _ & H'); lia].
+      * split; [intros _; repeat split; assumption | reflexivity].
+  - split; [discriminate | intros (H & _); contradiction].
+Qed.
+
+Lemma period1_validate_spec p : period1_validate p = None <-> 0 < p.
+Proof.
+  unfold period1_validate. destruct (Qle_bool p 0) eqn:E.
+  - apply Qle_bool_iff in E. split; [discriminate | lra].
+  - split; [| reflexivity]. intros _. apply Qltb_lt. unfold Qltb. rewrite E. reflexivity.
+Qed.
+
+Lemma periodn_validate_spec ps : periodn_validate ps = None <-> Forall (fun p => 0 <= p) ps.
+Proof.
+  unfold periodn_validate. destruct (forallb (fun p => Qle_bool 0 p) ps) eqn:E.
+  - split; [| reflexivity]. intros _. apply Forall_forall. intros p Hp.
+    rewrite forallb_forall in E. apply Qle_bool_iff, E, Hp.
+  - split; [discriminate |]. intros F. exfalso.
+    assert (forallb (fun p => Qle_bool 0 p) ps = true); [| congruence].
+    apply forallb_forall. intros p Hp. apply Qle_bool_iff. rewrite Forall_forall in F. apply F, Hp.
+Qed.
+
+Lemma slice_validate_num_spec dims z k : slice_validate dims (AxNum z) = inr k <-> (k = z /\ (0 <= z < dims)%Z).
+Proof.
+  cbn. destruct (Z.leb_spec 0 z), (Z.ltb_spec z dims); cbn [andb]; split; try discriminate;
+    try (intros [= <-]; split; [reflexivity | lia]); try (intros (-> & H'); try reflexivity; lia).
+Qed.
+Lemma slice_validate_name_spec dims s k : slice_validate dims (AxName s) = inr k <-> axis_of_name dims s = Some k.
+Proof.
+  cbn. destruct (axis_of_name dims s) as [j |]; split; try discriminate; intros [= ->]; reflexivity.
+Qed.
